@@ -79,6 +79,7 @@ type moduleCtx struct {
 	fset      *token.FileSet
 	results   []*kernelResult
 	inlinable map[string]*ast.FuncDecl
+	pkgs      map[string]*pkgDecls
 	curNode   ast.Node
 }
 
@@ -237,6 +238,9 @@ func (m *moduleCtx) translate(repo string, spec kernelSpec) *kernelResult {
 		return refused(spec.file, "function "+spec.fn+" not found")
 	}
 	k := &kctx{fset: fset, imports: importsOf(f), module: m, inputs: map[string]*input{}, used: map[string]bool{}, scalar: spec.scalar}
+	k.pkg = m.pkg(repo, filepath.Dir(spec.file))
+	k.pkg.imports[fd] = k.imports
+	k.recvType, _ = recvTypeName(fd)
 	// reserve the names of the Coq library the generated text refers to
 	for _, n := range []string{"SdkInt", "SdkDec", "Z", "N", "Bool", "list", "option", "bool", "string", "nil", "cons", "fst", "snd"} {
 		k.used[n] = true
@@ -296,10 +300,19 @@ func (m *moduleCtx) translate(repo string, spec kernelSpec) *kernelResult {
 				bound[n] = true
 			}
 			cv := k.expr(target.Cond, e)
-			if cv.t != tBool || len(k.lines) != 0 {
-				k.refuse(target.Cond, "the condition is not a pure boolean expression")
+			if cv.t != tBool {
+				k.refuse(target.Cond, "the condition is not a boolean expression")
 			}
 			c := k.term(cv, target.Cond)
+			for i := len(k.lines) - 1; i >= 0; i-- { // local definitions of an inlined helper
+				t := strings.TrimSpace(k.lines[i])
+				if !strings.HasPrefix(t, "let ") || !strings.HasSuffix(t, " in") {
+					k.refuse(target.Cond, "the condition can panic")
+				}
+				delete(bound, strings.Fields(t)[1])
+				c = t + " " + c
+			}
+			k.lines = nil
 			for _, i := range k.inputs {
 				delete(bound, i.name)
 			}
@@ -468,7 +481,7 @@ func main() {
 		}
 	}
 	for _, ms := range modules {
-		m := &moduleCtx{name: ms.name, fset: token.NewFileSet(), inlinable: map[string]*ast.FuncDecl{}}
+		m := &moduleCtx{name: ms.name, fset: token.NewFileSet(), inlinable: map[string]*ast.FuncDecl{}, pkgs: map[string]*pkgDecls{}}
 		var files []string
 		seen := map[string]bool{}
 		add := func(f string) {
